@@ -219,6 +219,88 @@ fn container_leg(seed: u64) -> (u64, Vec<String>) {
         let g3: HeapByteArray<32> = GenericHash::<32, 32>::hash(&hm, Some(&hk)).unwrap();
         let g4: Locked<HeapByteArray<32>> = GenericHash::<32, 32>::hash(&lm, Some(&lk)).unwrap();
         check("GenericHash::hash", vec![g1, g3.as_slice().to_vec(), g4.as_slice().to_vec()]);
+        // secret stream through every container kind (object API)
+        {
+            use dryoc::dryocstream::{DryocStream, Pull, Push, Tag};
+            let st0 = dryoc::classic::crypto_secretstream_xchacha20poly1305::State::verif_from_parts(ks.k, [1, 0, 0, 0, 5, 5, 5, 5, 5, 5, 5, 5]);
+            let tag = [Tag::MESSAGE, Tag::PUSH, Tag::REKEY, Tag::FINAL][len % 4];
+            let adv = if len % 3 == 0 { None } else { Some(m[..len.min(7)].to_vec()) };
+            let mut p1: DryocStream<Push> = DryocStream::verif_from_state(st0.clone());
+            let c1: Vec<u8> = p1.push(&m, adv.as_ref(), tag).unwrap();
+            let mut p3: DryocStream<Push> = DryocStream::verif_from_state(st0.clone());
+            let adh = adv.as_ref().map(|a| {
+                let mut h = HeapBytes::default();
+                h.resize(a.len(), 0);
+                h.as_mut_slice().copy_from_slice(a);
+                h
+            });
+            let c3: HeapBytes = p3.push(&hm, adh.as_ref(), tag).unwrap();
+            let mut p4: DryocStream<Push> = DryocStream::verif_from_state(st0.clone());
+            let adl = adv.as_ref().map(|a| HeapBytes::from_slice_into_locked(a).unwrap());
+            let c4: Locked<HeapBytes> = p4.push(&lm, adl.as_ref(), tag).unwrap();
+            check("DryocStream::push", vec![c1.clone(), c3.as_slice().to_vec(), c4.as_slice().to_vec()]);
+            check("DryocStream::push state", vec![p1.verif_state().verif_parts().0.to_vec(), p3.verif_state().verif_parts().0.to_vec(), p4.verif_state().verif_parts().0.to_vec()]);
+            let mut q1: DryocStream<Pull> = DryocStream::verif_from_state(st0.clone());
+            let (m1, t1): (Vec<u8>, Tag) = q1.pull(&c1, adv.as_ref()).unwrap();
+            let mut q3: DryocStream<Pull> = DryocStream::verif_from_state(st0.clone());
+            let (m3, t3): (HeapBytes, Tag) = q3.pull(&c3, adh.as_ref()).unwrap();
+            let mut q4: DryocStream<Pull> = DryocStream::verif_from_state(st0.clone());
+            let (m4, t4): (Locked<HeapBytes>, Tag) = q4.pull(&c4, adl.as_ref()).unwrap();
+            check("DryocStream::pull", vec![m1, m3.as_slice().to_vec(), m4.as_slice().to_vec(), m.clone()]);
+            check("DryocStream::pull tag", vec![vec![t1.bits()], vec![t3.bits()], vec![t4.bits()], vec![tag.bits()]]);
+        }
+        // signatures, MACs, SHA-512 through heap / locked containers
+        {
+            use dryoc::auth::Auth;
+            use dryoc::onetimeauth::OnetimeAuth;
+            use dryoc::sha512::Sha512;
+            use dryoc::sign::{SignedMessage, SigningKeyPair};
+            let (spk, ssk) = sodium::sign_seed_keypair(&ks.k);
+            let k1: SigningKeyPair<StackByteArray<32>, StackByteArray<64>> = SigningKeyPair::from_slices(&spk, &ssk).unwrap();
+            let k3: SigningKeyPair<HeapByteArray<32>, HeapByteArray<64>> = SigningKeyPair::from_slices(&spk, &ssk).unwrap();
+            let s1: SignedMessage<StackByteArray<64>, Vec<u8>> = k1.sign(m.clone()).unwrap();
+            let s3: SignedMessage<HeapByteArray<64>, HeapBytes> = k3.sign(hm.clone()).unwrap();
+            let s4: dryoc::sign::protected::LockedSignedMessage = k3.sign(HeapBytes::from_slice_into_locked(&m).unwrap()).unwrap();
+            check("SigningKeyPair::sign", vec![s1.to_vec(), s3.to_vec(), s4.to_vec()]);
+            let vok = s3.verify(&k3.public_key).is_ok() && s4.verify(&k1.public_key).is_ok();
+            check("SignedMessage::verify(heap containers accept a genuine signature)", vec![vec![vok as u8], vec![1u8]]);
+            let a1: Vec<u8> = Auth::compute_to_vec(ks.k, &m);
+            let a3: HeapByteArray<32> = Auth::compute(HeapByteArray::<32>::from(&ks.k), &hm);
+            let a4: Locked<HeapByteArray<32>> = Auth::compute(HeapByteArray::<32>::from_slice_into_locked(&ks.k).unwrap(), &lm);
+            check("Auth::compute", vec![a1, a3.as_slice().to_vec(), a4.as_slice().to_vec()]);
+            let o1: Vec<u8> = OnetimeAuth::compute_to_vec(ks.k, &m);
+            let o3: HeapByteArray<16> = OnetimeAuth::compute(HeapByteArray::<32>::from(&ks.k), &hm);
+            let o4: Locked<HeapByteArray<16>> = OnetimeAuth::compute(HeapByteArray::<32>::from_slice_into_locked(&ks.k).unwrap(), &lm);
+            check("OnetimeAuth::compute", vec![o1, o3.as_slice().to_vec(), o4.as_slice().to_vec()]);
+            let h1 = Sha512::compute_to_vec(&m);
+            let h3: HeapByteArray<64> = Sha512::compute(&hm);
+            let h4: Locked<HeapByteArray<64>> = Sha512::compute(&lm);
+            check("Sha512::compute", vec![h1, h3.as_slice().to_vec(), h4.as_slice().to_vec()]);
+        }
+        if len < 8 {
+            // key exchange and password hashing through heap / locked containers
+            use dryoc::keypair::KeyPair;
+            use dryoc::kx::Session;
+            use dryoc::pwhash::{Config, PwHash};
+            let kc: KeyPair<StackByteArray<32>, StackByteArray<32>> = KeyPair::from_seed(&[len as u8; 32]);
+            let ksv: KeyPair<StackByteArray<32>, StackByteArray<32>> = KeyPair::from_seed(&[len as u8 + 100; 32]);
+            let kch: KeyPair<HeapByteArray<32>, HeapByteArray<32>> = KeyPair::from_slices(kc.public_key.as_slice(), kc.secret_key.as_slice()).unwrap();
+            let x1: Session<StackByteArray<32>> = Session::new_client(&kc, &ksv.public_key).unwrap();
+            let x3: Session<HeapByteArray<32>> = Session::new_client(&kch, &HeapByteArray::<32>::from(ksv.public_key.as_array())).unwrap();
+            let x4: dryoc::kx::protected::LockedSession = Session::new_client(&kch, &HeapByteArray::<32>::from(ksv.public_key.as_array())).unwrap();
+            check("Session::new_client", vec![[x1.rx_as_slice(), x1.tx_as_slice()].concat(), [x3.rx_as_slice(), x3.tx_as_slice()].concat(), [x4.rx_as_slice(), x4.tx_as_slice()].concat()]);
+            let cfg = Config::interactive().with_opslimit(1).with_memlimit(8192 + 1024 * len);
+            let salt = vec![len as u8 + 1; 16];
+            let w1: PwHash<Vec<u8>, Vec<u8>> = PwHash::hash_with_salt(&m, salt.clone(), cfg.clone()).unwrap();
+            let w3: PwHash<HeapBytes, HeapBytes> = PwHash::hash_with_salt(&hm, {
+                let mut h = HeapBytes::default();
+                h.resize(16, 0);
+                h.as_mut_slice().copy_from_slice(&salt);
+                h
+            }, cfg.clone()).unwrap();
+            let w4: dryoc::pwhash::protected::LockedPwHash = PwHash::hash_with_salt(&lm, HeapBytes::from_slice_into_locked(&salt).unwrap(), cfg.clone()).unwrap();
+            check("PwHash::hash_with_salt", vec![w1.to_string().into_bytes(), w3.to_string().into_bytes(), w4.to_string().into_bytes()]);
+        }
         if len < 8 {
             let k1: Kdf<StackByteArray<32>, StackByteArray<8>> = Kdf::from_parts(ks.k.into(), [len as u8; 8].into());
             let k3: Kdf<HeapByteArray<32>, HeapByteArray<8>> = Kdf::from_parts(HeapByteArray::<32>::from(&ks.k), HeapByteArray::<8>::from(&[len as u8; 8]));
